@@ -75,6 +75,8 @@ def case_st(draw):
     if two and draw(st.integers(0, 2)) == 0:
         two = "blank"            # the second side of the interleaved image carries no catalogue at all
     return {"surface": s, "two_sided": two, "seedB": draw(st.integers(0, 10 ** 6)),
+            # what the OTHER side of a two-sided image is: each side is identified from its own sectors
+            "other_variant": draw(st.sampled_from(["acorn", "acorn-aa", "watford", "watford"])),
             "fake": draw(st.sampled_from(["bad-total", "bad-total-small", "no-volumes", "track-beyond", "spt-ok-only",
                                            "catalogue16", "catalogue16"]))}
 
@@ -132,7 +134,9 @@ class C13(CheckBase):
     variants = ("dbg", "asan")
     rule = ("generated well-formed discs of each variant (Acorn with a file starting in sector 2 and reaching sector "
             "16, Watford incl. first-catalogue files at 0x102/0x202/0x302, Opus 1-8 volumes, HDFS-flagged) x "
-            "35/40/80 tracks x single/double density x ssd/sdd/dsd/ddd, each with TWO body assignments for the same "
+            "35/40/80 tracks x single/double density x ssd/sdd/dsd/ddd (the other side of a two-sided image being an "
+            "Acorn disc, an Acorn disc whose sector-2 file starts with the Watford bytes, or a Watford disc, "
+            "identified on its own), each with TWO body assignments for the same "
             "catalogue: random, and marker-imitating (8 x 0xAA + catalogue-like data at sector 2, an incomplete Opus "
             "volume table at sector 16, valid-looking catalogues at the side-2 offsets) inside file bodies only. "
             "Oracle: (i) the identified format (from --verbose), 62 vs 31 catalogue slots, lettered volumes iff "
@@ -175,9 +179,19 @@ class C13(CheckBase):
             v.classes.append("full-catalogue-fragment")
         dd = spt != 10
         if case["two_sided"]:
-            other = {"variant": "acorn", "tracks": tracks, "spt": spt, "fill": {"kind": "rand", "seed": 9},
-                     "volumes": [{"label": None, "title": b"SIDE1", "cycle": 3, "boot": 0,
-                                  "total": s["volumes"][0]["total"], "cats": [[_ent(b"S1", 2, 700, 4)]]}]}
+            ov = case.get("other_variant", "acorn")
+            tot1 = min(s["volumes"][0]["total"], 1023)
+            if ov.startswith("watford"):
+                other = {"variant": "watford", "tracks": tracks, "spt": spt, "fill": {"kind": "rand", "seed": 9},
+                         "volumes": [{"label": None, "title": b"SIDE1W", "cycle": 3, "boot": 0, "total": tot1,
+                                      "cats": [[_ent(b"S1", 4, 700, 4)], [_ent(b"W2", 10, 300, 5)]]}]}
+            else:
+                e1 = _ent(b"S1", 2, 700, 4)
+                if ov == "acorn-aa":
+                    e1["body"] = {"kind": "aa", "seed": 1}       # starts with the Watford recognition bytes
+                other = {"variant": "acorn", "tracks": tracks, "spt": spt, "fill": {"kind": "rand", "seed": 9},
+                         "volumes": [{"label": None, "title": b"SIDE1", "cycle": 3, "boot": 0, "total": tot1,
+                                      "cats": [[e1]]}]}
             o = disc.build_surface(other)
             if case["two_sided"] == "blank":
                 o = bytearray(disc.expand({"kind": "rand", "seed": 77}, len(o)))
@@ -243,6 +257,21 @@ class C13(CheckBase):
                     res[name] = (rr.status, rr.signal, rr.stdout)
                     if rr.signal is not None or rr.status != 0:
                         v.fail("C13/command-failed", "%s failed on assignment %s" % (name, tag), rr.brief())
+                if case["two_sided"] and case["two_sided"] != "blank":
+                    # the other side is identified on its own: slot count and file count of drive 2
+                    wat1 = case.get("other_variant", "acorn").startswith("watford")
+                    r2 = runtool.run([dfs, "--file", img, "free", "2"], sb.path)
+                    i2 = runtool.run([dfs, "--file", img, "info", ":2.#.*"], sb.path)
+                    v.evaluations += 2
+                    m2 = re.findall(rb"^(\d+) Files", r2.stdout, re.M)
+                    slots2 = sum(int(x) for x in m2) if len(m2) == 2 else None
+                    nfiles2 = len([ln for ln in i2.stdout.split(b"\n") if ln.strip()])
+                    if r2.status != 0 or i2.status != 0 or slots2 != (62 if wat1 else 31) or nfiles2 != (2 if wat1 else 1):
+                        v.fail("C13/other-side-misidentified", "side 1 is a %s disc with %d file(s) but drive 2 shows %s "
+                               "catalogue slots and %d files (side 0 is %s)"
+                               % ("Watford" if wat1 else "Acorn", 2 if wat1 else 1, slots2, nfiles2, variant),
+                               {"free": r2.brief(), "info": i2.brief()})
+                    v.classes.append("other-side-" + case.get("other_variant", "acorn"))
                 lettered = bool(re.search(rb"^0[A-H]: ", res["titles"][2], re.M))
                 if lettered != (variant == "opus"):
                     v.fail("C13/volumes", "show-titles lists lettered volumes: %s on a %s disc" % (lettered, variant),
